@@ -305,7 +305,13 @@ pub(crate) mod verif_support {
         pub static mut CH_L: usize = 0;
         pub static mut CH_POS: usize = 0;
         pub static mut CH_COUNT_CALLS: u32 = 0;
+        /// when set, the abstract string's characters come from this table instead (set by the harness)
+        pub static mut CH_TEXT: [char; 4] = ['\0'; 4];
+        pub static mut CH_USE_TEXT: bool = false;
         pub fn abstract_char(i: usize) -> char {
+            if unsafe { CH_USE_TEXT } {
+                return unsafe { CH_TEXT[i] };
+            }
             match i {
                 0 => 'a',
                 1 => '\u{1F600}',
